@@ -704,7 +704,21 @@ fn unify_case(drv: &mut Driver, seed: u64, index: u64, rep: &mut Report) {
         }
     }
     let script = format!("(script (defs {}) (ops {}))", defs.join(" "), ops.join(" "));
+    if std::env::var("C07_DUMP").is_ok() {
+        eprintln!("SCRIPT {script}");
+    }
     let model = drv.ask(&format!("c07 unify {script}"));
+    if std::env::var("C07_DUMP").is_ok() {
+        eprintln!("MODEL {model}");
+    }
+    if model == "stuck" {
+        // the model predicts that the real code does not return (a cyclic
+        // record type makes `occurs` recurse until the stack overflows; only
+        // ill-formed inputs get there: no occurs check guards record variables).
+        // The real code is not run on it.
+        rep.hist("unify-steps", "model says: does not return (real code not run)");
+        return;
+    }
     let real = match catch_unwind(AssertUnwindSafe(|| unify_script(&script))) {
         Ok(s) => s,
         Err(e) => {
